@@ -9,7 +9,7 @@ LEVEL_TEXT = ("Every centroider is driven with compact non-negative content plac
               "(sizes 2..24, float and integer dtypes, stacks of depth 1..8, thresholds in [0,1), paddings 1..4) and judged against "
               "first-moment references and against itself under scaling (bit-exact for powers of two), integer content shifts and "
               "stack-vs-frame processing. Each code path (2-D / N-D) is also pinned to its own reference so that a divergence between "
-              "them, which is a recorded known finding, does not hide other faults. Exploration over images.")
+              "them, which is a recorded known finding, does not hide other faults. Correlation centroids are invariant over the whole float64 range of flux units (correlations of 1e+-160). Exploration over images.")
 LEVEL_NOTE = "Trusted: NumPy. Content is compact with zero background so that circular correlation does not wrap."
 RULE = "case = (centroider, frame shape, content, threshold / fraction / padding, relation); non-trivial when the content has >= 2 lit pixels; distinct by parameters and content digest"
 ASSUMPTIONS = ["centroids are returned as (x, y) = (column, row)", "array centre for the correlation centroid = pixel N // 2 (the zero-lag position after fftshift)",
